@@ -224,6 +224,11 @@ class CNet:
             v = interp.call(prop.fget, [self], {})
             self.cache[name] = v
             return v
+        from pyvc.values import FuncValue
+
+        if isinstance(prop, FuncValue):  # a (private) helper method of Network: run its real body on this graph
+            interp.inline_only.add(prop.qualname)
+            return BoundMethod(prop, self)
         raise Unsupported(f"Network.{name} in a lookup body")
 
     def pyvc_is_none(self):
